@@ -5,20 +5,22 @@ from .c01 import fix_disagreements
 
 MODULES = ['DsdVerif.Props.C11']
 GEN_FILES = []
-THEOREM_NAMES = ['sortBy_perm', 'sortBy_sorted', 'sortBy_perm_invariant', 'macro_perm_invariant', 'macro_canon_spec', 'macro_injective',
-                 'reaction_perm_invariant', 'reaction_lists_sorted', 'reaction_canon_iff']
-THEOREMS = []
+THEOREM_NAMES = ['sortBy_perm', 'sortBy_sorted', 'sortBy_perm_invariant', 'macro_perm_invariant', 'macro_canon_spec', 'macro_injective', 'reaction_perm_invariant', 'reaction_lists_sorted', 'reaction_canon_iff']
+THEOREMS = ['Dsd.C11.' + t for t in THEOREM_NAMES]
 ASSUMPTIONS = [
     'MacrostateS.identifiers / ReactionS.identifiers are hand-modelled (Model/Objects.lean: macroRequest, reactionRequest; sorted() is a '
     'stable insertion sort by canonical form); members are (name, canonical form) of live singleton complexes or macrostates',
 ]
 MANIFEST = {
-    'text': 'Partial at this commit: the model of the macrostate / reaction identifiers + metaclass is tied to the code by correspondence over '
-            'all non-empty subsets of a complex population in all permutations (first request in any permutation), all multisets of '
-            'reactants / products up to size 3, all reaction types; permutation invariance, canonical listing, representative, length and '
-            'arity are decided on the real code by a direct oracle; the theorems present at this commit are listed in the evidence.',
-    'note': 'Trusted base as in DESIGN.md section 3.',
-    'technique': 'Lean 4 proof of permutation invariance of the sorted canonical form; correspondence check on histories',
+    'text': 'Full for the model: macro_perm_invariant / reaction_perm_invariant (every permutation of the arguments denotes the same '
+            'request: same canonical form, same automatic name, same registry outcome), macro_canon_spec (canonical form = sorted member '
+            'forms, length = number of members, automatic name = name of the canonically smallest member, a given name must be a '
+            'member\'s), macro_injective and reaction_canon_iff (equal forms exactly for equal member multisets / reactant multiset, '
+            'product multiset and type), reaction_lists_sorted (canonical listing, arity); for any number of members. Tied to '
+            'MacrostateS / ReactionS by correspondence over all subsets x permutations and reactant / product multisets x types; the '
+            'same clauses are checked directly on the real objects.',
+    'note': 'Members with equal canonical form are the same singleton object (hypothesis Singletons, discharged by C01); trusted base as in DESIGN.md 3.',
+    'technique': 'Lean 4 proofs: sorted permutations under a strict total order are equal; correspondence check on histories',
 }
 
 PRE = ['reset', 'mk.dom\t0\ta\t5\t-\t-', 'mk.dom\t0\tb\t5\t-\t-',
